@@ -473,6 +473,19 @@ func (s *ExScenario) check(run *exRun, ex *vs.Exec) (string, string) {
 		return o
 	}
 	p1, p2 := byPhase(1), byPhase(2)
+	// every message except RELEASE (which goes to the lease's server) is sent to the server address the client was configured with
+	for i, tx := range run.txs {
+		want := serverAddr.String()
+		if tx.v6 != nil {
+			want = serverAddr6.String()
+		}
+		if tx.v4 != nil && tx.v4.MessageType() == dhcpv4.MessageTypeRelease {
+			continue
+		}
+		if tx.dest != want {
+			return fail("X0-destination", fmt.Sprintf("transmission %d went to %s, the client is configured with server address %s", i+1, tx.dest, want))
+		}
+	}
 	outcome := ec
 	switch s.Op {
 	case "request":
